@@ -63,40 +63,48 @@ Definition is_self_closing_start (t : tok) : bool :=
 
 Definition is_nil {A} (l : list A) : bool := match l with [] => true | _ => false end.
 
+(* one iteration of the loop: either the TokenSinkResult, or the next token and queue *)
+Definition ptc_iter (t : tok) (more_tokens : list tok) : M (sink_result + tok * list tok) :=
+  let should_have_acknowledged_self_closing_flag := is_self_closing_start t in
+  foreign <- is_foreign t ;;
+  result <- (if foreign then step_foreign t else s <- get ;; step (mode s) t) ;;
+  match result with
+  | Done =>
+    (if should_have_acknowledged_self_closing_flag then probe 44 ;; parse_error else ret tt) ;;
+    match more_tokens with
+    | [] => ret (inl SContinue)
+    | t' :: m' => ret (inr (t', m'))
+    end
+  | DoneAckSelfClosing =>
+    match more_tokens with
+    | [] => ret (inl SContinue)
+    | t' :: m' => ret (inr (t', m'))
+    end
+  | Reprocess m t' => set_mode_m m ;; ret (inr (t', more_tokens))
+  | ReprocessForeign t' => ret (inr (t', more_tokens))
+  | SplitWhitespace buf =>
+    match pop_front_char_run buf with
+    | None => ret (inl SContinue)
+    | Some (first, is_ws, rest) =>
+      let t' := KChars (if is_ws then Whitespace else NotWhitespace) first in
+      let more' := match rest with [] => more_tokens | _ :: _ => more_tokens ++ [KChars NotSplit rest] end in
+      when (negb (is_nil rest)) (probe 43) ;;
+      ret (inr (t', more'))
+    end
+  | PScript node => assert (is_nil more_tokens) 2 ;; ret (inl (SScript node))
+  | ToPlaintext => assert (is_nil more_tokens) 3 ;; ret (inl SPlaintext)
+  | ToRawData k => assert (is_nil more_tokens) 4 ;; ret (inl (SRawData k))
+  | PEncoding e => ret (inl (SEncoding e))
+  end.
+
 Fixpoint ptc_loop (fuel : nat) (t : tok) (more_tokens : list tok) : M sink_result :=
   match fuel with
   | 0 => out_of_fuel
   | S f =>
-    let should_have_acknowledged_self_closing_flag := is_self_closing_start t in
-    foreign <- is_foreign t ;;
-    result <- (if foreign then step_foreign t else s <- get ;; step (mode s) t) ;;
-    match result with
-    | Done =>
-      (if should_have_acknowledged_self_closing_flag then probe 44 ;; parse_error else ret tt) ;;
-      match more_tokens with
-      | [] => ret SContinue
-      | t' :: m' => ptc_loop f t' m'
-      end
-    | DoneAckSelfClosing =>
-      match more_tokens with
-      | [] => ret SContinue
-      | t' :: m' => ptc_loop f t' m'
-      end
-    | Reprocess m t' => set_mode_m m ;; ptc_loop f t' more_tokens
-    | ReprocessForeign t' => ptc_loop f t' more_tokens
-    | SplitWhitespace buf =>
-      match pop_front_char_run buf with
-      | None => ret SContinue
-      | Some (first, is_ws, rest) =>
-        let t' := KChars (if is_ws then Whitespace else NotWhitespace) first in
-        let more' := match rest with [] => more_tokens | _ :: _ => more_tokens ++ [KChars NotSplit rest] end in
-        when (negb (is_nil rest)) (probe 43) ;;
-        ptc_loop f t' more'
-      end
-    | PScript node => assert (is_nil more_tokens) 2 ;; ret (SScript node)
-    | ToPlaintext => assert (is_nil more_tokens) 3 ;; ret SPlaintext
-    | ToRawData k => assert (is_nil more_tokens) 4 ;; ret (SRawData k)
-    | PEncoding e => ret (SEncoding e)
+    r <- ptc_iter t more_tokens ;;
+    match r with
+    | inl res => ret res
+    | inr (t', m') => ptc_loop f t' m'
     end
   end.
 
